@@ -24,7 +24,7 @@ def run(ctx):
     from . import sweeps
     sweeps.fanout_sweep(ctx, F, "C16.D1", "poll_flush")
     sweeps.router_retain(ctx, F, "C16.D1", "poll_flush")
-    sh = F.one_body(r"^selium_server::server::Server::shutdown::\{closure#0\}$")
+    sh = (F.find_bodies(r"^selium_server::server::Server::shutdown::\{closure#0\}$") or F.find_bodies(r"^selium_server::server::Server::listen::\{closure#0\}$") or [F.one_body(r"^selium_server::server::Server::shutdown::\{closure#0\}$")])[0]
     ctx.touch(sh)
     fe = [c for c in sh.calls() if c.name() == "for_each" and "ValuesMut" in c.full]
     ja = [a for a in flow.awaits(sh) if a.source is not None and strip_generics(a.source.callee).endswith("join_all::join_all")]
